@@ -421,6 +421,14 @@ def build_items(tier):
             for pre in itertools.product(pres, repeat=n):
                 for final, expected in (("226", "2xx"), ("200", "200"), ("250", ("2xx", "3xx"))):
                     waits.append((list(pre), final, expected, wait))
+    # wait masks and expected masks that overlap: a reply that agrees with a wait mask is skipped, whatever the expected
+    # masks say about it
+    for wait, expected, pres, final in (("1xx", "xxx", ["150", "125"], "226"), ("1xx", ("1xx", "2xx"), ["150"], "226"),
+                                        ("426", "xx6", ["426"], "226"), (("1xx", "331"), "xxx", ["150", "331"], "230"),
+                                        ("15x", ("150", "226"), ["150"], "226"), ("x5x", "2xx", ["150", "250"], "226")):
+        for n in range(0, 4):
+            for pre in itertools.product(pres, repeat=n):
+                waits.append((list(pre), final, expected, wait))
     for i in range(0, len(waits), 40):
         items.append(("waits", waits[i:i + 40]))
     return items
